@@ -341,19 +341,19 @@ def getSet (args : List Bytes) : HRes :=
       call (Api.getSet s now k v) fun s o => done s [match o with | .bytes b => optBulk b | _ => .nullBulk]
   | _ => errReply
 
-/-- MGET writes the array header first; an operand of the wrong type panics after part of the
-    array is already written -/
+/-- MGET reads every key first (a wrong-typed key fails the command before anything is written),
+    then writes the array -/
 def mGet (args : List Bytes) : HRes :=
   if args.isEmpty then errReply else
   .exec fun s now _ =>
     let rec go : List Bytes → MState → List Tok → BodyOut
-      | [], s, acc => done s acc
+      | [], s, acc => done s (.arr args.length :: acc)
       | k :: rest, s, acc =>
         match Api.get s now k with
-        | (s, .panic) => { store := s, toks := acc, panicked := true }
+        | (s, .panic) => { store := s, toks := [], panicked := true }
         | (s, .bytes b) => go rest (commit s) (acc ++ [optBulk b])
         | (s, _) => go rest (commit s) acc
-    go args s [.arr args.length]
+    go args s []
 
 def setRange (args : List Bytes) : HRes :=
   match args with
